@@ -18,7 +18,7 @@ VERIF = os.path.dirname(os.path.dirname(os.path.abspath(__file__)))
 SEEDED = os.path.join(VERIF, 'seeded')
 
 # seeds that are caught by the check of a neighbouring property (the observable they break belongs to that check's harness)
-OTHER_CHECK = {'C02-e': ['C03'], 'C03-d': ['C11'], 'C03-g': ['C11'], 'C04-g': ['C10'], 'C10-h': ['C01'], 'C17-h': ['C08'], 'C19-h': ['C02'], 'C14-j': ['C13'], 'C15-l': ['C09']}
+OTHER_CHECK = {'C02-e': ['C03'], 'C03-d': ['C11'], 'C03-g': ['C11'], 'C04-g': ['C10'], 'C10-h': ['C01'], 'C17-h': ['C08'], 'C19-h': ['C02'], 'C14-j': ['C13'], 'C15-l': ['C09'], 'C04-n': ['C03']}
 # seeds no check can reach, with the reason (also in DESIGN.md 8.5)
 OUT_OF_REACH = {
     'C07-e': 'needs a second thread removing a registration between two plain statements of remove_header_callback; the property quantifies over '
@@ -27,6 +27,12 @@ OUT_OF_REACH = {
     'C02-j': 'only shows when the driver reports a link error while the dispatcher is still inside the handler of the protocol-version answer and the '
              'application reconnects before that handler returns: every history with that race is folded into the listed C02 known finding '
              '(life:anomaly-after-error-reported-while-dispatching), so the stalled second attempt is not reported on its own',
+    'C03-o': 'needs a device of the legacy protocol generation that nevertheless has extended-type (persistent) parameters; the generator keeps to '
+             'tables a firmware can produce (listed assumption of C03: extended / persistent parameters only on protocol >= 4 - the extended type is '
+             'asked for with a 16-bit index on the misc channel, which the legacy generation does not have)',
+    'C02-o': 'only shows when a link error reported from inside the send of the parameter-table request (sent by the dispatcher thread itself) is '
+             'processed by the hand-over thread before that send returns, and the application reconnects: the dispatcher is then mid-dispatch while '
+             'the error is processed, which is the listed C02 race; everything observed under it is folded into that known finding (see C02-j)',
     'C09-l': 'changes the outcome for about one random room in a thousand (a candidate position counted in two buckets lets a mirror bucket win); '
              'the symptom is a mirrored initial estimate, which the listed C09 known finding already shows in 2-5 % of the rooms, so the quick '
              'tier cannot tell the two apart (the rate bound of 10 % is not reached); the thorough tier sees single extra rooms only',
